@@ -502,6 +502,15 @@ def daemon_conf(routes):
         families=[(1, 1)],
         body='    static {\n' + ''.join(f'        route {p} next-hop {nh} med {m};\n' for p, nh, m in routes) + '    }\n',
         extra='    adj-rib-out true;\n    group-updates false;\n    api { processes [ player ]; }',
+    ) + exa.neighbor_text(
+        # a second neighbor nobody ever connects to, with a route of its own waiting in its Adj-RIB-Out: what is queued for a
+        # peer which is not there must not hold a reload back
+        peer='127.0.0.77',
+        rid='10.0.0.1',
+        pas=65077,
+        families=[(1, 1)],
+        body='    static {\n        route 10.77.0.0/24 next-hop 192.0.2.1;\n    }\n',
+        extra='    passive true;\n    adj-rib-out true;',
     )
 
 
